@@ -77,8 +77,15 @@ type Net struct {
 	Wake func()
 	// CloseErrAll makes the first Close of every connection report an error.
 	CloseErrAll bool
+	// SameRemoteAddr (off = every connection reports the address that was dialled) makes
+	// every accepted connection report ONE fixed remote address, as behind an SNI proxy or a
+	// port-forwarding / tunnelling dialer: RemoteAddr() no longer tells the nodes apart. The
+	// dialled address still decides the node (Conn.Host, Conn.Name and routing are unchanged);
+	// the fixed address keeps the dialled port (the driver's control connection reads it).
+	SameRemoteAddr bool
 
 	mu       sync.Mutex
+	sameAddr *net.TCPAddr
 	ordinals map[string]int
 	modes    map[string]DialMode
 	once     map[string][]DialMode // one-shot modes for the next dials to a host
@@ -134,6 +141,13 @@ func (n *Net) DialContext(ctx context.Context, network, addr string) (net.Conn, 
 	}
 	ord := n.ordinals[host]
 	n.ordinals[host] = ord + 1
+	connAddr := raddr
+	if n.SameRemoteAddr {
+		if n.sameAddr == nil {
+			n.sameAddr = &net.TCPAddr{IP: net.IPv4(10, 255, 255, 254), Port: port}
+		}
+		connAddr = n.sameAddr
+	}
 	n.mu.Unlock()
 	name := fmt.Sprintf("%s#%d", host, ord)
 
@@ -166,7 +180,7 @@ func (n *Net) DialContext(ctx context.Context, network, addr string) (net.Conn, 
 		Name:   name,
 		Host:   host,
 		net:    n,
-		raddr:  raddr,
+		raddr:  connAddr,
 		laddr:  &net.TCPAddr{IP: net.IPv4(10, 9, 9, 9), Port: 40000 + ord},
 		rdWake: make(chan struct{}, 1),
 		wrWake: make(chan struct{}, 1),
